@@ -13,6 +13,7 @@ import (
 	"path/filepath"
 	"sort"
 	"strconv"
+	"strings"
 	"sync"
 	"sync/atomic"
 	"time"
@@ -74,6 +75,46 @@ type Recorder struct {
 	notes    map[string]any
 	Exhaust  bool
 	deadline time.Time
+	external atomic.Int32 // > 0 while the check waits for a worker process
+	current  atomic.Value // string: the case announced by Announce
+}
+
+// Announce names the case a (sequential) part of the check is about to execute, so that the
+// watchdog can say what did not terminate.
+func (r *Recorder) Announce(desc string) { r.current.Store(desc) }
+
+// External runs fn (waiting for a worker process) with the watchdog suspended.
+func (r *Recorder) External(fn func()) {
+	r.external.Add(1)
+	defer r.external.Add(-1)
+	fn()
+}
+
+// Watch starts the watchdog: if no execution finishes for `stall` (and the check is not waiting
+// for a worker process), some execution of the implementation does not terminate. That is
+// reported as a violation - every property presupposes that building and rendering return - and
+// the process ends, because a goroutine stuck inside the library cannot be interrupted.
+func (r *Recorder) Watch(stall time.Duration) {
+	go func() {
+		last, since := r.evals.Load(), time.Now()
+		for {
+			time.Sleep(5 * time.Second)
+			if n := r.evals.Load(); n != last || r.external.Load() > 0 {
+				last, since = n, time.Now()
+				continue
+			}
+			if time.Since(since) < stall {
+				continue
+			}
+			cur, _ := r.current.Load().(string)
+			r.Violate(Violation{Signature: strings.ToLower(r.Property) + ":no-termination",
+				What:   fmt.Sprintf("no execution finished for %s: building or rendering does not terminate (last announced case: %q)", stall, cur),
+				Case:   JSON(map[string]string{"kind": "no-termination", "last_announced": cur}),
+				Detail: "the check was stopped by its watchdog; evaluations so far: " + fmt.Sprint(last)})
+			r.NotExhaustive("stopped by the watchdog")
+			os.Exit(r.Finish())
+		}
+	}()
 }
 
 type distinctShard struct {
